@@ -8,6 +8,7 @@ import (
 	"encoding/hex"
 	"fmt"
 	"math/big"
+	"strings"
 
 	"github.com/cloudflare/pat-go/ecdsa"
 	"github.com/cloudflare/pat-go/tokens/type3"
@@ -19,6 +20,14 @@ func init() {
 	// c06.verify <requestKey> <nameKeyId> <ciphertext> <signature> <blind> <clientKey> <known 0|1>
 	replayers["c06.verify"] = func(c *Ctx, a []string) string {
 		req := type3.RateLimitedTokenRequest{RequestKey: unhx(a[0]), NameKeyID: unhx(a[1]), EncryptedTokenRequest: unhx(a[2]), Signature: unhx(a[3])}
+		if len(a) > 7 {
+			// the request object held other contents before and was encoded then (a caller that edits a request
+			// it has already marshalled): what is verified is what the object holds now
+			pre := strings.Split(a[7], ",")
+			req = type3.RateLimitedTokenRequest{RequestKey: unhx(pre[0]), NameKeyID: unhx(pre[1]), EncryptedTokenRequest: unhx(pre[2]), Signature: unhx(pre[3])}
+			req.Marshal()
+			req.RequestKey, req.NameKeyID, req.EncryptedTokenRequest, req.Signature = unhx(a[0]), unhx(a[1]), unhx(a[2]), unhx(a[3])
+		}
 		blind, clientKey := unhx(a[4]), unhx(a[5])
 		cache := newMemCache()
 		var pre *type3.ClientState
@@ -64,12 +73,13 @@ func c06Conj(req type3.RateLimitedTokenRequest, blind, clientKey []byte) bool {
 	if cx == nil {
 		return false
 	}
-	bk, _ := ecdsa.CreateKey(elliptic.P384(), blind)
-	bp, err := ecdsa.BlindPublicKeyWithContext(elliptic.P384(), &ecdsa.PublicKey{Curve: elliptic.P384(), X: cx, Y: cy}, bk, t3ctx("ClientBlind"))
-	if err != nil {
+	// recomputed without the package under test: circl's hash_to_field over the blind's bytes as an integer
+	// encoding (leading zeros dropped, as CreateKey keeps it), standard-library scalar multiplication
+	bp := refBlind("P-384", cx, cy, new(big.Int).SetBytes(blind), t3ctx("ClientBlind"))
+	if bp == nil {
 		return false
 	}
-	return bytes.Equal(elliptic.MarshalCompressed(elliptic.P384(), bp.X, bp.Y), req.RequestKey)
+	return bytes.Equal(elliptic.MarshalCompressed(elliptic.P384(), bp[0], bp[1]), req.RequestKey)
 }
 
 func runC06(c *Ctx) {
@@ -80,12 +90,18 @@ func runC06(c *Ctx) {
 		o[bit/8] ^= 1 << (bit % 8)
 		return o
 	}
+	var pre *type3.RateLimitedTokenRequest
 	run := func(kind string, req type3.RateLimitedTokenRequest, blind, clientKey []byte, honest bool) {
 		known := "0"
 		if r.IntN(4) == 0 {
 			known = "1"
 		}
-		out := c.Run("c06.verify", hx(req.RequestKey), hx(req.NameKeyID), hx(req.EncryptedTokenRequest), hx(req.Signature), hx(blind), hx(clientKey), known)
+		args := []string{hx(req.RequestKey), hx(req.NameKeyID), hx(req.EncryptedTokenRequest), hx(req.Signature), hx(blind), hx(clientKey), known}
+		if pre != nil {
+			args = append(args, hx(pre.RequestKey)+","+hx(pre.NameKeyID)+","+hx(pre.EncryptedTokenRequest)+","+hx(pre.Signature))
+			kind += "(edited-after-marshal)"
+		}
+		out := c.Run("c06.verify", args...)
 		c.Count(kind)
 		in := map[string]any{"kind": kind, "requestKey": hx(req.RequestKey), "nameKeyId": hx(req.NameKeyID), "ct": hx(req.EncryptedTokenRequest),
 			"sig": hx(req.Signature), "blind": hx(blind), "clientKey": hx(clientKey), "impl": out}
@@ -156,6 +172,32 @@ func runC06(c *Ctx) {
 		run("blind:other", req, other.blind, cl.pubEnc, false)
 		run("blind:empty", req, []byte{}, cl.pubEnc, false)
 		run("blind:leading-zero", req, append([]byte{0, 0}, cl.blind...), cl.pubEnc, true)
+		// the blind is a byte string: b + kN is another blind (another blinding factor), although the same residue
+		for k := int64(1); k <= 3; k++ {
+			bn := new(big.Int).Add(new(big.Int).SetBytes(cl.blind), new(big.Int).Mul(big.NewInt(k), elliptic.P384().Params().N))
+			run("blind:+kN", req, bn.Bytes(), cl.pubEnc, false)
+		}
+		// a request object that was marshalled while it held the honest contents and was edited afterwards, and the
+		// reverse (marshalled while tampered, then repaired)
+		pre = &req
+		for _, f := range []int{0, 1, 2, 3} {
+			m := req
+			switch f {
+			case 0:
+				m.RequestKey = flip(req.RequestKey, 8+r.IntN(48*8))
+			case 1:
+				m.NameKeyID = flip(req.NameKeyID, r.IntN(32*8))
+			case 2:
+				m.EncryptedTokenRequest = flip(req.EncryptedTokenRequest, r.IntN(len(req.EncryptedTokenRequest)*8))
+			case 3:
+				m.Signature = flip(req.Signature, r.IntN(96*8))
+			}
+			pre = &req
+			run("edit:tampered", m, cl.blind, cl.pubEnc, false)
+			pre = &m
+			run("edit:repaired", req, cl.blind, cl.pubEnc, true)
+		}
+		pre = nil
 		run("clientKey:other", req, cl.blind, other.pubEnc, false)
 		run("clientKey:is-request-key", req, cl.blind, req.RequestKey, false)
 		// the negated key: a client whose secret is N-d has public key -P; its honest request under the same
